@@ -7,6 +7,8 @@ variable {α : Type}
 structure SOK (s : Lapper α) : Prop where
   sorted : SortedStart s.intervals.toList
   maxLen_ge : ∀ iv ∈ s.intervals.toList, iv.len ≤ s.maxLen
+  /-- all coordinates fit in u64 (needed by the saturating probe of the inner loop) -/
+  fits : ∀ iv ∈ s.intervals.toList, iv.stop ≤ U64MAX
 
 /-- the cursor `c` is usable for every query position `≥ p` -/
 def Good (s : Lapper α) (c p : Nat) : Prop := Below s.intervals c (p - s.maxLen)
@@ -36,6 +38,29 @@ theorem depthAt_spec {s : Lapper α} (hs : SOK s) (p c : Nat) (h : Good s c p) :
     exact ov_unit_eq_covers iv p
   · rw [depthAt_snd]; exact h2
 
+/-- the saturating unit query `[p, p.saturating_add(1))` hits exactly the intervals covering `p`,
+as long as the interval ends within u64 (at `p ≥ u64::MAX` neither side holds) -/
+theorem ov_sat_eq_covers (iv : Iv α) (p : Nat) (h : iv.stop ≤ U64MAX) : iv.ov p (satAdd p 1) = iv.covers p := by
+  unfold Iv.ov Iv.covers satAdd
+  rw [Bool.eq_iff_iff]
+  simp only [Bool.and_eq_true, decide_eq_true_eq]
+  omega
+
+theorem depthAtSat_fst (s : Lapper α) (p c : Nat) : (depthAtSat s p c).1 = (s.seek p (satAdd p 1) c).1.length := rfl
+theorem depthAtSat_snd (s : Lapper α) (p c : Nat) : (depthAtSat s p c).2 = (s.seek p (satAdd p 1) c).2 := rfl
+
+/-- the repaired probe of the inner loop meets the same specification as `depthAt` -/
+theorem depthAtSat_spec {s : Lapper α} (hs : SOK s) (p c : Nat) (h : Good s c p) :
+    (depthAtSat s p c).1 = depthOf s.intervals.toList p ∧ Good s (depthAtSat s p c).2 p := by
+  obtain ⟨h1, h2⟩ := seek_step s hs.sorted hs.maxLen_ge p (satAdd p 1) c (p - s.maxLen) h (Nat.le_refl _)
+  refine ⟨?_, ?_⟩
+  · rw [depthAtSat_fst, h1, depthOf, List.countP_eq_length_filter]
+    congr 1
+    apply List.filter_congr
+    intro iv hiv
+    exact ov_sat_eq_covers iv p (hs.fits iv hiv)
+  · rw [depthAtSat_snd]; exact h2
+
 theorem depthOf_pos_iff (l : List (Iv α)) (p : Nat) : 0 < depthOf l p ↔ covered l p := by
   unfold depthOf covered
   rw [List.countP_pos_iff]
@@ -61,18 +86,18 @@ theorem walk_spec {s : Lapper α} (hs : SOK s) (d stop : Nat) :
     simp only [walk]
     split
     · rename_i hlt
-      obtain ⟨hd, hg'⟩ := depthAt_spec hs (pos+1) cur (hg.mono (Nat.le_succ _))
+      obtain ⟨hd, hg'⟩ := depthAtSat_spec hs (pos+1) cur (hg.mono (Nat.le_succ _))
       split
       · rename_i heq
-        have heq' : (depthAt s (pos+1) cur).1 = d := by simpa using heq
-        obtain ⟨i1, i2, i3, i4, i5, i6⟩ := ih (pos+1) (depthAt s (pos+1) cur).2 hg' (by omega)
+        have heq' : (depthAtSat s (pos+1) cur).1 = d := by simpa using heq
+        obtain ⟨i1, i2, i3, i4, i5, i6⟩ := ih (pos+1) (depthAtSat s (pos+1) cur).2 hg' (by omega)
         refine ⟨by omega, fun _ => by omega, fun _ => i3 (by omega), ?_, i5, i6⟩
         intro q hq1 hq2
         by_cases hq : q = pos + 1
         · subst hq; rw [← hd]; exact heq'
         · exact i4 q (by omega) hq2
       · rename_i hne
-        have hne' : (depthAt s (pos+1) cur).1 ≠ d := by simpa using hne
+        have hne' : (depthAtSat s (pos+1) cur).1 ≠ d := by simpa using hne
         refine ⟨by simp, fun _ => by simp, fun _ => hlt, fun q h1 h2 => ?_, fun _ => ?_, hg'⟩
         · simp at h2; omega
         · simp only; rw [← hd]; exact hne'
